@@ -37,10 +37,10 @@ carquet_status_t carquet_byte_stream_split_encode_float(
         return CARQUET_ERROR_INVALID_ARGUMENT;
     }
 
-    size_t required_size = (size_t)count * sizeof(float);
-    if (output_capacity < required_size) {
+    if (count < 0 || (uint64_t)count > output_capacity / sizeof(float)) {
         return CARQUET_ERROR_ENCODE;
     }
+    size_t required_size = (size_t)count * sizeof(float);
 
     /* Use SIMD-optimized transpose */
     carquet_dispatch_byte_split_encode_float(values, count, output);
@@ -59,8 +59,7 @@ carquet_status_t carquet_byte_stream_split_decode_float(
         return CARQUET_ERROR_INVALID_ARGUMENT;
     }
 
-    size_t required_size = (size_t)count * sizeof(float);
-    if (data_size < required_size) {
+    if (count < 0 || (uint64_t)count > data_size / sizeof(float)) {
         return CARQUET_ERROR_DECODE;
     }
 
@@ -86,10 +85,10 @@ carquet_status_t carquet_byte_stream_split_encode_double(
         return CARQUET_ERROR_INVALID_ARGUMENT;
     }
 
-    size_t required_size = (size_t)count * sizeof(double);
-    if (output_capacity < required_size) {
+    if (count < 0 || (uint64_t)count > output_capacity / sizeof(double)) {
         return CARQUET_ERROR_ENCODE;
     }
+    size_t required_size = (size_t)count * sizeof(double);
 
     /* Use SIMD-optimized transpose */
     carquet_dispatch_byte_split_encode_double(values, count, output);
@@ -108,8 +107,7 @@ carquet_status_t carquet_byte_stream_split_decode_double(
         return CARQUET_ERROR_INVALID_ARGUMENT;
     }
 
-    size_t required_size = (size_t)count * sizeof(double);
-    if (data_size < required_size) {
+    if (count < 0 || (uint64_t)count > data_size / sizeof(double)) {
         return CARQUET_ERROR_DECODE;
     }
 
@@ -136,10 +134,10 @@ carquet_status_t carquet_byte_stream_split_encode(
         return CARQUET_ERROR_INVALID_ARGUMENT;
     }
 
-    size_t required_size = (size_t)count * (size_t)type_length;
-    if (output_capacity < required_size) {
+    if (count < 0 || (uint64_t)count > output_capacity / (size_t)type_length) {
         return CARQUET_ERROR_ENCODE;
     }
+    size_t required_size = (size_t)count * (size_t)type_length;
 
     /* Transpose: put byte 0 of all values, then byte 1, etc. */
     for (int b = 0; b < type_length; b++) {
@@ -163,8 +161,7 @@ carquet_status_t carquet_byte_stream_split_decode(
         return CARQUET_ERROR_INVALID_ARGUMENT;
     }
 
-    size_t required_size = (size_t)count * (size_t)type_length;
-    if (data_size < required_size) {
+    if (count < 0 || (uint64_t)count > data_size / (size_t)type_length) {
         return CARQUET_ERROR_DECODE;
     }
 
